@@ -70,3 +70,4 @@ CFG = {
 }
 
 CFG["level_extra"] = ('Continuity across a knot is proved for the rounded lookup: for t1 <= t_k <= t2 not further apart than the knot spacing, 0 <= r(t1) - r(t2) <= max(step_(k-1), step_k) + an explicit rounding term (<= 6e-17 m on the current tables), hence < 0.5 mm + 1e-15 m whenever neither touched segment is in the known class, and < 0.66 mm + 1e-15 m always (C18_knot_straddle, C18_half_mm_straddle_8ns, C18_straddle_lt_066_mm_8ns; table facts by computation over the regenerated tables).')
+CFG["level_extra"] = CFG["level_extra"] + ' For lookups 8 ns apart that touch three segments (possible at 276 knots because the spacing is 8 ns +- 1e-21 s) only the sum bound is proved; the 0.5 mm figure is measured there (rel-drift-step8). The proved bound is < 0.5 mm + 1e-15 m.'
